@@ -5,3 +5,4 @@ pub mod c16;
 pub mod c06;
 pub mod c20;
 pub mod c19;
+pub mod c17;
